@@ -110,6 +110,10 @@ def run(rep, tier, driver):
         if r != first[g][1]:
             rep.violation("input", {"iupac": s, "reference": first[g][0]}, {"result": r}, {"result": first[g][1]}, key="perm:" + s)
     rep.extra["groups"] = groups
+    # tie of the Lean theorems (C07_children_order_immaterial is about wfTree trees) to the code: the whole-tree certificate on the
+    # strings observed inside the real merge_int of these written orders
+    import mergex
+    mergex.run(rep, tier, driver, [s for s, r in zip(jobs, res) if r[0] == "ok" and r[1]][: (150 if tier == "quick" else 3000)], wellformed=True)
 
 
 def replay(body):
